@@ -19,10 +19,10 @@ TECH = {
  "C14": "transaction-scope pairing (K3,K11), error discipline at every call site of the create/delete scope (K6), delete traversal coverage from go/types and DELETE statement lint (K7,K8) + batch-per-attempt capture lint on retry literals (K3)",
  "C15": "SQL predicate lint (K8), symbolic expansion of the query builder's CFG paths into templates (K2,K8), stream close/connection ownership pairing (K3), sibling-literal agreement (K7) + retry-context capture lint (K11), constructor copy-order lint (K7) + send-has-a-way-out lint on stream producers (K3), one-statement-per-stream path rule (K3)",
  "C16": "pipeline ordering on CFG paths (K3), required-field guard table on every accepting path (K2), child coverage from go/types (K7), def-use of the shared key set (K11), comparison shape (K5), error discipline (K6) + call-order on CFG paths for defaults vs validation, refusal of preset registers (K3,K2)",
- "C17": "reflect.Kind dispatch coverage and callee-assertion contradiction check (K9), scrub-before-return dominance (K3), aliasing lint (K7), call-order and recursion discipline (K4,K6) + assume-and-refute on embedded-struct skipping, exemption-predicate lint (K9) + assume-and-refute on skipped fields of the registry's type descent (K9)",
+ "C17": "reflect.Kind dispatch coverage and callee-assertion contradiction check (K9), scrub-before-return dominance (K3), aliasing lint (K7), call-order and recursion discipline (K4,K6) + assume-and-refute on embedded-struct skipping, exemption-predicate lint (K9) + assume-and-refute on skipped fields of the registry's type descent (K9), who-may-write lint on package-level state in the scrubber's call-graph reach (K4)",
  "C18": "field coverage and aliasing lint from go/types (K7), branch-scoped assignment of engine-owned fields and nil-result guards (K2) + append-destination freshness (K7), exemption-predicate lint (K9)",
- "C19": "source-order visit table against the field list from go/types (K7), chain def-use (K11), visitor-result discipline at every yield/walk call (K6)",
- "C20": "prologue guard order on CFG paths (K10), nil-guard dominance (K10), truncate/re-root pairing (K3), type-switch placement table and sibling-case field agreement (K2,K7) + sticky-error return discipline on CFG paths (K6)",
+ "C19": "source-order visit table against the field list from go/types (K7), chain def-use (K11), visitor-result discipline at every yield/walk call (K6), walker-answer def-use on CFG paths (K6)",
+ "C20": "prologue guard order on CFG paths (K10), nil-guard dominance (K10), truncate/re-root pairing (K3), type-switch placement table and sibling-case field agreement (K2,K7) + sticky-error return discipline on CFG paths (K6), no-plan-write lint on Up and its private helpers (K3)",
  "C09": "terminal-status guard dominance on CFG paths (K2), fix* prologue guards (K10), exact caller sets (K4) + assume-and-refute iff-rules on skip guards and repair-then-classify (K2) + assume-and-refute: durable group verdicts are not run again at plan level (K2)",
 }
 def text(p):
